@@ -277,6 +277,27 @@ def generate():
             words.append(disp[var])          # multi-word keywords: `small pass`, `if to say`, `if not so`
         else:
             raise TranslatorError("reserved token %s has no keyword text" % var)
+    # behaviour switch read off the source: how names are typed while a block's function
+    # signatures are inferred (infer_expr_type under `signature_body`)
+    m = re.search(r"fn\s+infer_expr_type\b", rs)
+    if not m:
+        raise TranslatorError("infer_expr_type not found")
+    ibody, _ = braces(rs, m.end())
+    var_arms = re.findall(r"Expr::Var\([^)]*\)\s*(if[^=]*)?=>", ibody)
+    if not var_arms:
+        raise TranslatorError("infer_expr_type: no Expr::Var arm")
+    sig_dyn = bool(re.search(r"Expr::Var\(\.\.\)\s*if\s+self\.signature_body\.is_some\(\)\s*=>\s*Some\(ValueType::Dynamic\)", ibody))
+    sig_fn = bool(re.search(r"signature_body\s*\.is_some_and\(\|body\|\s*Self::block_defines_function\(body,\s*func_name\)\)", re.sub(r"\s+", " ", ibody).replace(" .", ".")))
+    if sig_dyn != sig_fn:
+        raise TranslatorError("infer_expr_type: signature-time typing of variables and of nested functions disagree (%s/%s)" % (sig_dyn, sig_fn))
+    if not sig_dyn and "signature_body" in rs:
+        raise TranslatorError("resolver.rs mentions signature_body in a shape this translator does not know")
+    A("(* Behaviour switch read off src/resolver.rs infer_expr_type: while the signatures of a block's")
+    A("   functions are inferred, a variable is typed Dynamic and a call of a function nested in the")
+    A("   body is Dynamic (true), or both are looked up in the scopes as they are when the enclosing")
+    A("   block is entered (false: the defect keyed c09-return-type-from-outer-scope). *)")
+    A("Definition src_signature_names_dynamic : bool := %s." % ("true" if sig_dyn else "false"))
+    A("")
     A("(* src/syntax/token.rs is_reserved_keyword, spelled as in scanner.rs (the parser rejects them as names) *)")
     A("Definition reserved_words : list (list Z) :=")
     A("  [" + ";\n   ".join("%s (* %s *)" % (zbytes(w), w) for w in words) + "].")
